@@ -13,6 +13,7 @@ def ALTARR : Nat := 0x340
 def CELL : Nat := 0x400
 def STRUCT : Nat := 0x500
 def ALTSTRUCT : Nat := 0x540
+def IDX : Nat := 0x600
 
 def le32 (v : Nat) : List Nat := encodeLE 4 v
 def chars (s : String) : List Nat := s.toList.map Char.toNat
@@ -39,6 +40,9 @@ def action (name : String) (m : Mem) : Option Mem :=
   | "lengthen" => some (m.write (STR + 5) [88, 89, 90, 87, 0])
   | "shorten" => some (m.write (STR + 2) [0])
   | "unterminate" => some (m.write (STR + 5) (List.replicate 200 85 ++ [0]))
+  | "idxbig" => some (m.write IDX (le32 6))
+  | "idxsmall" => some (m.write IDX (le32 1))
+  | "idxneg" => some (m.write IDX (le32 4294967295))
   | "nullcell" => some (m.write CELL (le32 0))
   | "retarget" =>
       let cur := peek32 m CELL
@@ -61,7 +65,7 @@ def showOut (variant : String) (o : Out) : String :=
   | .null => if variant == "strs" then "s= size=0" else "null"
   | .abort => "abort"
   | .fault => "segv"
-  | .addr a => s!"addr={showPtr a}"
+  | .addr a => if variant == "idx" then s!"off={a}" else s!"addr={showPtr a}"
   | .val bs =>
     match variant with
     | "int" | "ptr" => s!"v={s32 bs}"
@@ -88,6 +92,7 @@ def progOf (variant : String) (src : PSrc) : Option (Prog Out) :=
   | "addr" => some (cavAddr src)
   | "buf" => some (cavBuf src 16)
   | "copymem" => some (copyMem STR 6)
+  | "idx" => some (idxVol IDX 4 4)
   | _ => none
 
 def targetOf (variant : String) : Nat :=
@@ -104,6 +109,7 @@ def step (t : List String) : Option String :=
       match progOf variant psrc, action act initMem with
       | some prog, some _ =>
           let m0 := if src == "cell" then initMem.write CELL (le32 tgt) else initMem
+          let m0 := if variant == "idx" then m0.write IDX (le32 (if src == "in" then 1 else 6)) else m0
           let advAt (k : Nat) : Adv := fun n m => if n = k then (action act m).getD m else m
           let never : Adv := fun _ m => m
           let base := run never prog ⟨m0, 0⟩
